@@ -152,18 +152,6 @@ theorem selectGo_correct (span : α → Span) (pos : Nat) (xs : List α)
 
 /-! ### No `unwrap` panic -/
 
-theorem noUnitList_mem {ps : List Pat} (h : Pat.noUnit.noUnitList ps = true) :
-    ∀ p ∈ ps, p.noUnit = true := by
-  induction ps with
-  | nil => simp
-  | cons q qs ih =>
-    simp only [Pat.noUnit.noUnitList, Bool.and_eq_true] at h
-    intro p hp
-    simp at hp
-    rcases hp with rfl | hp
-    · exact h.1
-    · exact ih h.2 p hp
-
 theorem okList_mem {cs : List Expr} (h : okList cs = true) : ∀ c ∈ cs, c.ok = true := by
   induction cs with
   | nil => simp
@@ -176,7 +164,7 @@ theorem okList_mem {cs : List Expr} (h : okList cs = true) : ∀ c ∈ cs, c.ok 
     · exact ih h.2 p hp
 
 theorem okBinds_mem {bs : List LBind} (h : okBinds bs = true) :
-    ∀ b ∈ bs, b.name.noUnit = true ∧ b.expr.ok = true := by
+    ∀ b ∈ bs, b.expr.ok = true := by
   induction bs with
   | nil => simp
   | cons q qs ih =>
@@ -185,11 +173,11 @@ theorem okBinds_mem {bs : List LBind} (h : okBinds bs = true) :
     intro p hp
     simp at hp
     rcases hp with rfl | hp
-    · exact ⟨h.1.1, h.1.2⟩
+    · exact h.1
     · exact ih h.2 p hp
 
 theorem okAlts_mem {bs : List Alt} (h : okAlts bs = true) :
-    ∀ b ∈ bs, b.pat.noUnit = true ∧ b.expr.ok = true := by
+    ∀ b ∈ bs, b.expr.ok = true := by
   induction bs with
   | nil => simp
   | cons q qs ih =>
@@ -198,12 +186,11 @@ theorem okAlts_mem {bs : List Alt} (h : okAlts bs = true) :
     intro p hp
     simp at hp
     rcases hp with rfl | hp
-    · exact ⟨h.1.1, h.1.2⟩
+    · exact h.1
     · exact ih h.2 p hp
 
 /-- what `visit_any` may be handed -/
 def Variant.ok : Variant → Bool
-  | .pat p => p.noUnit
   | .expr e => e.ok
   | _ => true
 
@@ -236,7 +223,7 @@ theorem recordVariants_ok {fs : List Field} {base : Option Expr}
     | some b => simp at hv; subst hv; exact hb b rfl
 
 theorem no_panic (pos : Nat) : ∀ fuel : Nat,
-    (∀ p st, p.noUnit = true → visitPat pos fuel p st ≠ .panic) ∧
+    (∀ p st, visitPat pos fuel p st ≠ .panic) ∧
     (∀ v st, (∀ x, v = some x → Variant.ok x = true) → visitVariant pos fuel v st ≠ .panic) ∧
     (∀ e st, e.ok = true → visitExpr pos fuel e st ≠ .panic) := by
   intro fuel
@@ -245,39 +232,29 @@ theorem no_panic (pos : Nat) : ∀ fuel : Nat,
   | succ n ih =>
     obtain ⟨ihP, ihV, ihE⟩ := ih
     refine ⟨?_, ?_, ?_⟩
-    · intro p st hp
+    · intro p st
       cases p with
       | leaf sp b => simp [visitPat]
-      | as_ sp b q =>
-        simp only [visitPat]
-        exact ihP _ _ (by simpa [Pat.noUnit] using hp)
+      | as_ sp b q => simp only [visitPat]; exact ihP _ _
       | ctor sp len args =>
         simp only [visitPat]
-        simp only [Pat.noUnit] at hp
         split
         · simp
         · split
-          · rename_i q hq
-            exact ihP _ _ (noUnitList_mem hp q (select_mem _ _ _ _ hq))
+          · exact ihP _ _
           · simp
       | tuple sp elems =>
         simp only [visitPat]
-        simp only [Pat.noUnit, Bool.and_eq_true] at hp
         split
-        · rename_i q hq
-          exact ihP _ _ (noUnitList_mem hp.2 q (select_mem _ _ _ _ hq))
-        · rename_i hnone
-          exfalso
-          have hne : elems ≠ [] := by
-            intro h; subst h; simp at hp
-          exact select_total Pat.span pos elems hne hnone
+        · exact ihP _ _
+        · simp
     · intro v st hv
       cases v with
       | none => simp [visitVariant]
       | some x =>
         have hx := hv x rfl
         cases x with
-        | pat p => simp only [visitVariant]; exact ihP _ _ hx
+        | pat p => simp only [visitVariant]; exact ihP _ _
         | ident a => simp [visitVariant]
         | field sp => simp [visitVariant]
         | expr e => simp only [visitVariant]; exact ihE _ _ hx
@@ -311,6 +288,10 @@ theorem no_panic (pos : Nat) : ∀ fuel : Nat,
         split
         · simp
         · exact ihE _ _ he
+      | annotated sp e =>
+        simp only [visitExpr]
+        simp only [Expr.ok] at he
+        exact ihE _ _ he
       | lambda sp args body =>
         simp only [visitExpr]
         simp only [Expr.ok] at he
@@ -330,9 +311,9 @@ theorem no_panic (pos : Nat) : ∀ fuel : Nat,
           simp only [bindVariants, List.mem_cons, List.mem_append, List.mem_map,
             List.not_mem_nil, or_false] at hxm
           rcases hxm with rfl | ⟨a, _, rfl⟩ | rfl
-          · exact hbo.1
           · rfl
-          · exact hbo.2
+          · rfl
+          · exact hbo
         · exact ihE _ _ he.2
       | matchE sp scrut alts =>
         simp only [visitExpr]
@@ -357,13 +338,12 @@ theorem no_panic (pos : Nat) : ∀ fuel : Nat,
           · rename_i p hp
             have hm2 := select_mem _ _ _ _ hp
             simp at hm2
-            subst hm2
-            exact ihP _ _ hao.1
+            exact ihP _ _
           · rename_i e' he'
             have hm2 := select_mem _ _ _ _ he'
             simp at hm2
             subst hm2
-            exact ihE _ _ hao.2
+            exact ihE _ _ hao
       | record sp fields base =>
         simp only [visitExpr]
         unfold Expr.ok at he
